@@ -138,7 +138,7 @@ func runC11(s *kernel.Sim) {
 		for _, t := range open {
 			e := t.reqT + c11Retention
 			if e > now {
-				targets = append(targets, e-1, e-time.Millisecond, e-5*time.Second, e+1, e+6*time.Second)
+				targets = append(targets, e, e-1, e-time.Millisecond, e-5*time.Second, e+1, e+6*time.Second)
 			}
 		}
 		s.SleepUntil(targets[tp.Choose(len(targets))])
@@ -200,7 +200,7 @@ func runC11(s *kernel.Sim) {
 					m := lookup(o.t.id)
 					s.Event("txn_response", o.t.id, m)
 					age := s.Now() - o.t.reqT
-					if age < c11Retention {
+					if age <= c11Retention { // the last instant of the period is within it
 						s.Rule("R1")
 						s.Nontrivial()
 						if m != o.t.reqM {
